@@ -10,7 +10,7 @@ CB_CODES = {'decide_bool': 10, 'decide_option': 11, 'decide_result': 12, 'decide
             'decide_skipcb_unit': 23, 'decide_skipcb_result': 24, 'decide_bump': 25,
             'decide_bool_b': 10, 'decide_filter_b': 13,
             'named::boolish::skip': 10, 'named::filt::skip': 13, 'named::fr::skip': 14, 'named::valueish::skip': 18,
-            'named::bumping::skip': 25, 'named::unitish::skip': 23, 'named::resultish::skip': 24}
+            'named::bumping::skip': 25, 'decide_bump_skip': 26, 'decide_bump_skip_unit': 26, 'named::unitish::skip': 23, 'named::resultish::skip': 24}
 
 
 def behaviour_codes(c):
